@@ -15,21 +15,22 @@
         assert!(if i < n { same(&b[i], &x[i]) } else { same(&b[i], &y[i - n]) });
     }
     // assume_specification <[T]>::sort_by (buffer.sort_by(centroid_cmp)): same length, permutation.  Means NaN-free, as the VX unit requires
-    // before the call (centroid_cmp is unreachable!() on NaN).  Also checked here although the contract does not claim it: ascending by mean.
-    #[kani::proof]
-    #[kani::unwind(6)]
-    fn shim_sort_by_centroid_cmp() {
-        let x = [any_centroid(), any_centroid(), any_centroid(), any_centroid()];
-        let n: usize = kani::any(); kani::assume(n <= 4);
-        let mut i = 0; while i < n { kani::assume(!x[i].mean.is_nan()); i += 1; }
-        let mut b: Vec<Centroid> = x[..n].to_vec();
+    // before the call (centroid_cmp is unreachable!() on NaN).  Also checked although the contract does not claim it: ascending by mean.
+    // Concrete lengths 0..=4 (a symbolic length makes CBMC execute the whole driftsort).
+    fn sort_by_case<const N: usize>() {
+        let x: [Centroid; N] = core::array::from_fn(|_| any_centroid());
+        let mut i = 0; while i < N { kani::assume(!x[i].mean.is_nan()); i += 1; }
+        let mut b: Vec<Centroid> = x.to_vec();
         b.sort_by(centroid_cmp);
-        assert!(b.len() == n);
+        assert!(b.len() == N);
         let w = any_centroid();
         let mut c0 = 0; let mut c1 = 0; let mut i = 0;
-        while i < n { if same(&x[i], &w) { c0 += 1; } if same(&b[i], &w) { c1 += 1; } if i + 1 < n { assert!(b[i].mean <= b[i + 1].mean); } i += 1; }
+        while i < N { if same(&x[i], &w) { c0 += 1; } if same(&b[i], &w) { c1 += 1; } if i + 1 < N { assert!(b[i].mean <= b[i + 1].mean); } i += 1; }
         assert!(c0 == c1);
     }
+    #[kani::proof]
+    #[kani::unwind(6)]
+    fn shim_sort_by_centroid_cmp() { sort_by_case::<0>(); sort_by_case::<1>(); sort_by_case::<2>(); sort_by_case::<3>(); sort_by_case::<4>(); }
     // assume_specification <[T]>::reverse on Vec<Centroid>
     #[kani::proof]
     #[kani::unwind(6)]
